@@ -13,6 +13,7 @@ package c09
 
 import (
 	"encoding/json"
+	"flag"
 	"fmt"
 	"sort"
 	"strings"
@@ -28,7 +29,12 @@ import (
 	"verif/harness/vr"
 )
 
-func TestMain(m *testing.M) { vr.Main(m) }
+func TestMain(m *testing.M) {
+	// several sub-checks can fail on one defect; keep the time rapid spends shrinking each of them bounded so that a
+	// failing run still ends within the quick budget
+	_ = flag.Set("rapid.shrinktime", "8s")
+	vr.Main(m)
+}
 
 // Case is one synthetic page; Page.Fragments() / Page.Box() are the detector inputs.
 type Case struct {
